@@ -210,9 +210,18 @@ def run_search(repo: Repo, res: Result) -> None:
                 ok = any(implies(e.guard, atom(f"{e.nvar} in {s}")) for s in obj_sets)
                 if not ok and batched and how == "loop" and nmap is not None and nmap.var in obj_sets:
                     ok = True  # bound by iterating the map entry of the neighbour: only objects whose sub-tree holds it
+                if not ok and batched and how == "lookup" and nmap is not None and nmap.var in obj_sets and kvar is not None and implies(e.guard, f_not(atom(f"{kvar} is None"))):
+                    ok = True  # `o = D.get(neighbour)` and `o is not None`: the neighbour is a key of the map
+                if batched and nmap is not None and nmap.collection == nmap.var and not getattr(nmap, "from_caller", False) and ok:
+                    # the lookup is a parameter and no caller shows how it is filled: that its keys are the objects' sub-trees is the caller's business
+                    res.undecide("C01.S", repo.key(fi, stmt_of(e.call)) + " [object subtree]", f"the node -> object lookup `{nmap.var}` is handed in and the model found no caller that builds it from {S.SUBMODULES}", where(fi, e.call))
+                    n -= 1
+                    ok = None
                 unknown = [] if ok else _unknown_sets(m, e.guard, [e.nvar])
                 key = repo.key(fi, stmt_of(e.call)) + " [object subtree]"
-                if not ok and unknown and not obj_sets:
+                if ok is None:
+                    pass  # reported as undecided above
+                elif not ok and unknown and not obj_sets:
                     res.undecide("C01.S", key, f"the recorded target is restricted to `{unknown[0]}`, a set the model cannot relate to {S.SUBMODULES}(graph, {obj_param})", where(fi, e.call))
                 else:
                     res.add(
